@@ -119,6 +119,81 @@ Definition law_commit (ops : list cop) (b a : dump) (binds : list (positive * op
                              (add (default empty_res (d_share b !! k)) (cop_req b a k 0 ops)))
           (elements (dom (d_share a) ∪ dom (d_share b))).
 
+(* ---- the dispatch loop of Session.Allocate (directed "gang" family, selector 2 / law 105) ----
+   Go ranges over the map TaskStatusIndex[Allocated] in random order and returns at the first
+   refused bind, so WHICH members were dispatched before the refused one is order dependent.
+   Selector 2 therefore compares the history exactly up to its last operation and only the
+   result code of the last one; the last step is judged by the order-insensitive law below. *)
+Fixpoint run_dump_last (eps : Z) (s : sess) (ops : list op) : list Z :=
+  match ops with
+  | [] => []
+  | [o] => let '(_, res) := step eps s o in [-101; eResult res]
+  | o :: r => let '(s', res) := step eps s o in eStep s s' res ++ run_dump_last eps s' r
+  end.
+
+Definition held_on (d : dump) (nd : option positive) (tid : positive) : bool :=
+  match nd with
+  | Some nid => match d_nodes d !! nid with Some n => bool_decide (is_Some (n_tasks n !! tid)) | None => false end
+  | None => false
+  end.
+
+(* outcome of one member of the dispatched set: 0 = left Allocated where it was (not attempted),
+   1 = handed to the binder (Binding, same node, still held, logged), 2 = its placement undone
+   (Pending, NodeName empty, off the node); 3 = anything else *)
+Definition member_outcome (a : dump) (binds : list (positive * option positive)) (tid : positive) (nd : option positive) : Z :=
+  match d_heap a !! tid with
+  | Some ta =>
+    let logged := bool_decide ((tid, nd) ∈ binds) in
+    if bool_decide (t_status ta = Allocated) && bool_decide (t_node ta = nd) && held_on a nd tid && negb logged then 0
+    else if bool_decide (t_status ta = Binding) && bool_decide (t_node ta = nd) && held_on a nd tid && logged then 1
+    else if bool_decide (t_status ta = Pending) && bool_decide (t_node ta = None) && negb (held_on a nd tid) && negb logged then 2
+    else 3
+  | None => 3
+  end.
+
+(* [arg] was Pending off-node and is placed on [nid] by the call; the members are [arg] and the
+   tasks the job's Allocated index held before the call.
+   - the invariant holds afterwards;
+   - a refused member is either not attempted (still Allocated on its node) or undone, never bound;
+   - an accepted member is either bound and logged or not attempted, never undone;
+   - if some member is refused exactly one (refused) member is undone and the call fails, otherwise
+     every member is bound and the call succeeds;
+   - the binder saw exactly the bound members; every other task is unchanged;
+   - the handler shares moved by the request of [arg] minus the requests of the undone member. *)
+Definition law_dispatch (arg nid : positive) (res : Z) (rb : list positive) (b a : dump)
+    (binds : list (positive * option positive)) : bool :=
+  match d_heap b !! arg with
+  | Some targ =>
+    match d_jobs b !! t_job targ with
+    | Some j =>
+      let others := List.filter (fun i => negb (Pos.eqb i arg)) (elements (default ∅ (j_index j !! skey Allocated))) in
+      let node_of i := match d_heap b !! i with Some t => t_node t | None => None end in
+      let outs := (arg, member_outcome a binds arg (Some nid)) ::
+                  map (fun i => (i, member_outcome a binds i (node_of i))) others in
+      let refused i := bool_decide (i ∈ rb) in
+      let undone := List.filter (fun io => snd io =? 2) outs in
+      let bound := List.filter (fun io => snd io =? 1) outs in
+      ledger_okb (d_heap a) (d_jobs a) (d_nodes a) &&
+      forallb (fun io => if refused (fst io) then (snd io =? 0) || (snd io =? 2)
+                         else (snd io =? 0) || (snd io =? 1)) outs &&
+      (if existsb (fun io => refused (fst io)) outs
+       then Nat.eqb (length undone) 1 && (res =? 1)
+       else Nat.eqb (length undone) 0 && forallb (fun io => snd io =? 1) outs && (res =? 0)) &&
+      Nat.eqb (length binds) (length bound) &&
+      gmap_allb (fun i tb => if existsb (fun io => Pos.eqb (fst io) i) outs then true
+                             else match d_heap a !! i with Some ta => task_sameb tb ta | None => false end) (d_heap b) &&
+      forallb (fun k =>
+         let req_of l := sum_req (omap (fun io => match d_heap b !! fst io with
+                                                  | Some t => if bool_decide (t_job t = k) then Some t else None
+                                                  | None => None end) l) in
+         res_eqvb (add (default empty_res (d_share a !! k)) (req_of undone))
+                  (add (default empty_res (d_share b !! k)) (req_of [(arg, 0)])))
+        (elements (dom (d_share a) ∪ dom (d_share b)))
+    | None => false
+    end
+  | None => false
+  end.
+
 Definition entry (sel : Z) (toks : list Z) : list Z :=
   match sel with
   | 1 => match run_dec dCase toks with
@@ -126,6 +201,16 @@ Definition entry (sel : Z) (toks : list Z) : list Z :=
            let s0 := build e ns js ts in
            [-100] ++ eState s0 ++ run_dump e s0 ops
          | None => bad_input end
+  | 2 => match run_dec dCase toks with
+         | Some (e, ns, js, ts, ops) =>
+           let s0 := build e ns js ts in
+           [-100] ++ eState s0 ++ run_dump_last e s0 ops
+         | None => bad_input end
+  | 105 => match run_dec (let* ar := dPos in let* nd := dPos in let* r := dZ in let* rb := dList dPos in
+                          let* b := dDump in let* a := dDump in let* bs := dList (dPair dPos dNodeRef) in
+                          ret (ar, nd, r, rb, b, a, bs)) toks with
+           | Some (ar, nd, r, rb, b, a, bs) => eBool (law_dispatch ar nd r rb b a bs)
+           | None => bad_input end
   | 101 => match run_dec (let* o := dZ in let* r := dZ in let* t := dZ in let* b := dDump in let* a := dDump in
                           let* nb := dZ in let* ne := dZ in ret (o, r, t, b, a, nb, ne)) toks with
            | Some (o, r, t, b, a, nb, ne) => eBool (law_step o r t b a nb ne)
